@@ -3,7 +3,8 @@
 
    tree  = sequence of nodes [parent (0 = application level), name, aliases, kind ("plain"|"default"|"anon"),
            enabled, hidden, strict]; ids are positions, declaration order = id order.  Names/tokens are sequences of
-           1-character strings.  strict = the command needs at least one positional beyond its own name path to parse.
+           1-character strings.  strict = the command parses strictly and declares no argument: any positional beyond its own name path is
+           "too many arguments"; a non-strict command parses leniently and accepts every line.
    P-layer: Lead (leading non-option tokens), Path (longest prefix naming a path of commands), Allowed (the path's
             last command, or its default sub-commands; at application level the default commands), OutcomeOK.
    A-layer: the resolver as the code runs it: Leading, Descend (one step per token), Pick (first parsable default,
@@ -71,7 +72,7 @@ RECURSIVE SkipNames(_, _, _, _)
 SkipNames(tree, pos, np, k) ==
   IF k < Len(pos) /\ k < Len(np) /\ pos[k + 1] # <<>> /\ pos[k + 1] \in Names(tree[np[k + 1]]) THEN SkipNames(tree, pos, np, k + 1) ELSE k
 Extra(tree, n, line) == Len(Positionals(line)) - SkipNames(tree, Positionals(line), NamePath(tree, n), 0)
-ParsableRule(tree, n, line) == ~tree[n].strict \/ Extra(tree, n, line) >= 1
+ParsableRule(tree, n, line) == ~tree[n].strict \/ Extra(tree, n, line) = 0
 
 \* ------------------------------------------------------------------ A-layer: the resolver
 VARIABLES tree, line, phase, lead, cur, i, cand, outcome
@@ -120,7 +121,7 @@ Canon(tr, p, toks) == IF toks = <<>> THEN <<>>
                       ELSE <<ToName(tr, p, Head(toks))>> \o Canon(tr, Lookup(tr, p, Head(toks)), Tail(toks))
 CanonLine(tr, ln) == Canon(tr, 0, Lead(ln)) \o SubSeq(ln, Len(Lead(ln)) + 1, Len(ln))
 AliasLaw == Done => Target(tree, CanonLine(tree, line)) = Target(tree, line)
-OptionLaw == Done => \A opt \in {<<"-", "g">>, <<"-", "-", "g", "l", "o", "b">>} :
+OptionLaw == Done => \A opt \in {<<"-", "g">>, <<"-", "-", "g", "l", "o", "b">>, <<"-", "-", "o", "p", "t", "=", "v">>} :
                Target(tree, BeforeSep(line) \o <<opt>> \o (IF Len(BeforeSep(line)) < Len(line) THEN <<DD>> \o AfterSep(line) ELSE <<>>)) = Target(tree, line)
 SeparatorLaw == Done => \A n \in 1..Len(tree) : Target(tree, BeforeSep(line) \o <<DD, tree[n].name>>) = Target(tree, BeforeSep(line))
 HiddenIrrelevant == Done => Target([n \in 1..Len(tree) |-> [tree[n] EXCEPT !.hidden = FALSE]], line) = Target(tree, line)
